@@ -163,6 +163,10 @@ MUTANTS = [
      'sequence.insert(operation("Write", [K, 0]))\n        sequence.insert_sequence(\n            hrevolve_aux(l, K, cmem',
      'sequence.insert(operation("Write", [0, 0]))\n        sequence.insert_sequence(\n            hrevolve_aux(l, K, cmem',
      ["seq.hrevolve.hrevolve_recurse"], "makespan_level_1"),
+    ("revolve_checkpoint_write_not_flagged", "checkpoint_schedules/hrevolve.py",
+     "                    write_ics = True\n                    adj_deps = False\n                    snapshots.add((w_storage, w_n0))",
+     "                    write_ics = False\n                    adj_deps = False\n                    snapshots.add((w_storage, w_n0))",
+     ["hrevolve.RevolveCheckpointSchedule._iterator"], "cost_so_far"),
 ]
 
 
